@@ -777,6 +777,21 @@ def _run_gene(case, ctx):
     _check_merged(ctx, "feature", gene.get_merged_feature, [t["exons"] for t in txs], strands, "gene", gtn)
     cod = [t for t in txs if t["cds"]]
     _check_merged(ctx, "cds", gene.get_merged_cds, [t["cds"] for t in cod], [t["strand"] for t in cod], "gene", gtn)
+    # ---- merged, history: genes that keep this gene's identifier but hold other children (a sub-gene from query_by_guids; a gene
+    # rebuilt with the same explicit guid and fewer transcripts) are merged over THEIR children, whatever was merged before --------
+    if n >= 2 and len(set(strands)) == 1:
+        for pick in ([0], [n - 1], list(range(1, n))):
+            sub, exc = ctx.call(gene.query_by_guids, [kids[j].guid for j in pick])
+            if exc is not None or sub is None:
+                ctx.check("agg.merged", False, key=("gene", "history", "query_by_guids-refused"), exc=repr(exc)[:160], pick=pick)
+                continue
+            stx = [txs[j] for j in pick]
+            _check_merged(ctx, "transcript", sub.get_merged_transcript, [t["exons"] for t in stx], [t["strand"] for t in stx], "gene-subset-same-guid", gtn)
+            scod = [t for t in stx if t["cds"]]
+            _check_merged(ctx, "cds", sub.get_merged_cds, [t["cds"] for t in scod], [t["strand"] for t in scod], "gene-subset-same-guid", gtn)
+        # and the full gene once more after its subsets were merged
+        _check_merged(ctx, "transcript", gene.get_merged_transcript, [t["exons"] for t in txs], strands, "gene-after-subsets", gtn)
+        _check_merged(ctx, "cds", gene.get_merged_cds, [t["cds"] for t in cod], [t["strand"] for t in cod], "gene-after-subsets", gtn)
 
 
 def _gene_accessors(ctx, gene, kids, txs, want, p, genome, parent):
